@@ -16,13 +16,6 @@ Proof.
   - reflexivity.
   - rewrite IH by lia. apply andb_assoc.
 Qed.
-Lemma has_float4_app a : forall ra b rb, length a = length ra ->
-  has_float4 (a ++ b) (ra ++ rb) = has_float4 a ra || has_float4 b rb.
-Proof.
-  induction a as [|t a IH]; intros [|v ra] b rb H; cbn [length] in H; try discriminate; cbn [has_float4 app].
-  - reflexivity.
-  - rewrite IH by lia. apply orb_assoc.
-Qed.
 Lemma has_toast_blob_app a : forall ra b rb, length a = length ra ->
   has_toast_blob (a ++ b) (ra ++ rb) = has_toast_blob a ra || has_toast_blob b rb.
 Proof.
@@ -68,21 +61,17 @@ Lemma from_record_column_ok done t todo rdone v rtodo bm :
   let row := rdone ++ v :: rtodo in
   length done = length rdone ->
   schema_ok s = true -> fits_cols s row = true -> total_var s row < 65536 ->
-  has_float4 s row = false -> has_toast_blob s row = false ->
-  (total_fixed s + total_var s row = 0 -> is_vnull v = true) ->
+  has_toast_blob s row = false ->
   blen bm = bitmap_size (ncols s) ->
   bit bm (Z.of_nat (length done)) = is_vnull v ->
   from_record_column s (record_bytes s bm row) (Z.of_nat (length done)) t = Ok v.
 Proof.
-  intros s row Hlen Hs Hfc Htv H4 Htb Hempty Hbm Hbit.
+  intros s row Hlen Hs Hfc Htv Htb Hbm Hbit.
   set (idx := Z.of_nat (length done)) in *.
   (* per-column facts *)
   pose proof Hfc as Hfc'. unfold s, row in Hfc'. rewrite fits_cols_app in Hfc' by exact Hlen.
   apply andb_true_iff in Hfc'. destruct Hfc' as [Hfd Hfr]. cbn [fits_cols] in Hfr.
   apply andb_true_iff in Hfr. destruct Hfr as [Hfv Hft].
-  pose proof H4 as H4'. unfold s, row in H4'. rewrite has_float4_app in H4' by exact Hlen.
-  apply orb_false_iff in H4'. destruct H4' as [H4d H4r]. rewrite has_float4_cons in H4r.
-  apply orb_false_iff in H4r. destruct H4r as [H4v H4t].
   pose proof Htb as Htb'. unfold s, row in Htb'. rewrite has_toast_blob_app in Htb' by exact Hlen.
   apply orb_false_iff in Htb'. destruct Htb' as [_ Htbr]. cbn [has_toast_blob] in Htbr.
   apply orb_false_iff in Htbr. destruct Htbr as [Htbv _].
@@ -112,10 +101,7 @@ Proof.
   pose proof (total_fixed_nonneg s) as Htf0. pose proof (total_var_nonneg s row) as Htv0.
   unfold from_record_column, is_null_or_missing, record_column_count.
   rewrite Hhdr. cbn [bind]. rewrite Hlen_data.
-  destruct (Z.leb_spec (hl + total_fixed s + total_var s row) hl) as [Hz|Hz].
-  - (* no payload bytes: everything is "missing"; only an all-NULL row gets here *)
-    cbn [bind]. replace (idx >=? 0) with true by lia. cbn [bind].
-    rewrite (is_vnull_eq v); [reflexivity | apply Hempty; lia].
+  replace (hl + total_fixed s + total_var s row <? hl) with false by lia.
   - cbn [bind]. rewrite rcc_all by lia. fold (ncols s). fold idx.
     replace (idx >=? 0 + ncols s) with false by lia.
     (* is_null *)
@@ -168,7 +154,7 @@ Proof.
       rewrite rd_at; [cbn [bind]; exact Hdec | | lia].
       rewrite !blen_app in *. lia.
     + (* fixed width *)
-      destruct (fixed_roundtrip t v Hfv Hn Hv H4v) as [dec [Hg Hdec]].
+      destruct (fixed_roundtrip t v Hfv Hn Hv) as [dec [Hg Hdec]].
       rewrite Hg. unfold get_fixed. rewrite <- Hdata, Hhdr. cbn [bind].
       unfold idx, s at 1. rewrite fixed_offset_split. fold s. cbn [bind].
       set (A := fsegs done rdone). set (B := fsegs todo rtodo). set (p := payload t v).
@@ -187,15 +173,14 @@ Qed.
 (* ------------------------------------------------------------------ all columns *)
 Lemma extract_from_ok s row bm :
   schema_ok s = true -> fits_cols s row = true -> total_var s row < 65536 ->
-  has_float4 s row = false -> has_toast_blob s row = false ->
-  (total_fixed s + total_var s row = 0 -> forallb is_vnull row = true) ->
+  has_toast_blob s row = false ->
   blen bm = bitmap_size (ncols s) ->
   (forall j, (j < length s)%nat -> bit bm (Z.of_nat j) = is_vnull (nth j row VNull)) ->
   forall todo rtodo done rdone,
     s = done ++ todo -> row = rdone ++ rtodo -> length done = length rdone ->
     extract_from s (record_bytes s bm row) (Z.of_nat (length done)) todo = Ok rtodo.
 Proof.
-  intros Hs Hfc Htv H4 Htb Hempty Hbm Hbits.
+  intros Hs Hfc Htv Htb Hbm Hbits.
   pose proof (fits_cols_length _ _ Hfc) as Hrl.
   induction todo as [|t todo IH]; intros rtodo done rdone Es Er Hlen.
   - assert (rtodo = []).
@@ -206,10 +191,7 @@ Proof.
     cbn [extract_from].
     assert (Hcol : from_record_column s (record_bytes s bm row) (Z.of_nat (length done)) t = Ok v).
     { subst s row. apply from_record_column_ok; try assumption.
-      - intros Hz. specialize (Hempty Hz). rewrite forallb_app in Hempty.
-        apply andb_true_iff in Hempty. destruct Hempty as [_ He]. cbn [forallb] in He.
-        apply andb_true_iff in He. tauto.
-      - rewrite Hbits by (rewrite app_length; cbn [length]; lia).
+      rewrite Hbits by (rewrite app_length; cbn [length]; lia).
         rewrite app_nth2 by lia. rewrite Hlen, Nat.sub_diag. reflexivity. }
     rewrite Hcol. cbn [bind].
     replace (Z.of_nat (length done) + 1) with (Z.of_nat (length (done ++ [t])))
@@ -222,32 +204,18 @@ Proof.
 Qed.
 
 (* ------------------------------------------------------------------ the property *)
-Lemma known_class_0 s row :
-  known_class s row = 0 ->
-  (total_fixed s + total_var s row = 0 -> forallb is_vnull row = true) /\
-  has_float4 s row = false /\ has_toast_blob s row = false.
-Proof.
-  unfold known_class. intros H.
-  pose proof (total_fixed_nonneg s). pose proof (total_var_nonneg s row).
-  destruct ((total_fixed s =? 0) && (total_var s row =? 0) && negb (forallb is_vnull row)) eqn:C1; [discriminate|].
-  destruct (has_float4 s row); [discriminate|].
-  destruct (has_toast_blob s row); [discriminate|].
-  split; [|split; reflexivity].
-  intros Hz. destruct (forallb is_vnull row); [reflexivity|].
-  replace (total_fixed s =? 0) with true in C1 by lia.
-  replace (total_var s row =? 0) with true in C1 by lia. discriminate C1.
-Qed.
+Lemma known_class_0 s row : known_class s row = 0 -> has_toast_blob s row = false.
+Proof. unfold known_class. destruct (has_toast_blob s row); [discriminate | reflexivity]. Qed.
 
-(* For every schema and every row that fits it and lies outside the three recorded defect
-   classes: a new builder produces a record, no step panics, and reading the record back
+(* For every schema and every row that fits it and lies outside the recorded defect class: a new builder produces a record, no step panics, and reading the record back
    returns exactly the row, NULLs included. *)
 Lemma record_roundtrip_l :
   forall s row, schema_ok s = true -> fits_row s row = true -> known_class s row = 0 ->
     roundtrip_ok s row.
 Proof.
   intros s row Hs Hfr Hk.
-  destruct (known_class_0 s row Hk) as [Hempty [H4 Htb]].
-  destruct (build_fresh_closed s row Hs Hfr H4) as [bm [Hb [Hbm Hbits]]].
+  pose proof (known_class_0 s row Hk) as Htb.
+  destruct (build_fresh_closed s row Hs Hfr) as [bm [Hb [Hbm Hbits]]].
   unfold fits_row in Hfr. apply andb_true_iff in Hfr. destruct Hfr as [Hfc Htv].
   exists (record_bytes s bm row). split; [exact Hb|].
   unfold extract, view_new.
@@ -255,36 +223,30 @@ Proof.
   { unfold record_bytes. rewrite blen_app, blen_le_bytes.
     pose proof (blen_nonneg (bm ++ flat_map (le_bytes 2) (cums 0 (vsegs s row)) ++ fsegs s row ++ concat (vsegs s row))). lia. }
   replace (blen (record_bytes s bm row) <? 2) with false by lia. cbn [bind].
-  apply (extract_from_ok s row bm Hs Hfc ltac:(lia) H4 Htb Hempty Hbm Hbits s row [] []); reflexivity.
+  apply (extract_from_ok s row bm Hs Hfc ltac:(lia) Htb Hbm Hbits s row [] []); reflexivity.
 Qed.
 
-(* the all-NULL row of any schema round-trips (it is in none of the defect classes) *)
+(* the all-NULL row of any schema round-trips (it is not in the defect class) *)
 Lemma all_null_facts s :
   fits_cols s (repeat VNull (length s)) = true /\ total_var s (repeat VNull (length s)) = 0 /\
-  has_float4 s (repeat VNull (length s)) = false /\ has_toast_blob s (repeat VNull (length s)) = false /\
-  forallb is_vnull (repeat VNull (length s)) = true.
+  has_toast_blob s (repeat VNull (length s)) = false.
 Proof.
-  induction s as [|t s [A [B [C [D E]]]]]; cbn [length repeat fits_cols total_var has_float4 has_toast_blob forallb].
+  induction s as [|t s [A [B C]]]; cbn [length repeat fits_cols total_var has_toast_blob].
   - repeat split; reflexivity.
-  - rewrite A, B, C, D, E. cbn [fits var_len is_vnull negb andb orb].
+  - rewrite A, B, C. cbn [fits var_len andb].
     repeat split; try reflexivity.
     + destruct (is_var t); reflexivity.
-    + destruct t; reflexivity.
     + destruct t; reflexivity.
 Qed.
 
 Lemma record_null_roundtrip_l :
   forall s, schema_ok s = true -> roundtrip_ok s (repeat VNull (length s)).
 Proof.
-  intros s Hs. destruct (all_null_facts s) as [A [B [C [D E]]]].
+  intros s Hs. destruct (all_null_facts s) as [A [B C]].
   apply record_roundtrip_l; [exact Hs | |].
   - unfold fits_row. rewrite A, B. reflexivity.
-  - unfold known_class. rewrite E, C, D. rewrite andb_false_r. reflexivity.
+  - unfold known_class. rewrite C. reflexivity.
 Qed.
-
-(* size of a record, for rows that fit and have no value in a Float4 column *)
-Lemma no_float4_of_class s row : known_class s row = 0 -> has_float4 s row = false.
-Proof. intros H. apply known_class_0 in H. tauto. Qed.
 
 (* the property's schemas (1..64 columns) all satisfy schema_ok *)
 Lemma nvars_le s : (nvars s <= length s)%nat.
